@@ -160,13 +160,13 @@ def run_unit(unit, tmpl_path, repo_root, scratch, rlimit=None, extra_args=None, 
             if f_:
                 # prefer the span that is inside a function body with an 'at this exit/call' label
                 fn = f_ if fn is None or s.get('label') in ('at this exit', 'at this call', None) else fn
-        # the function that failed is the one containing the *non-clause* span if any
-        owner = None
-        for s in spans:
-            f_ = fn_at_line(ranges, s['line_start'])
-            if f_ is not None:
-                owner = f_
-                if not s.get('is_primary'):
+        # the failing function is the one containing the primary span (call site / clause / assert)
+        owner = fn_at_line(ranges, line) if line else None
+        if owner is None:
+            for s in spans:
+                f_ = fn_at_line(ranges, s['line_start'])
+                if f_ is not None:
+                    owner = f_
                     break
         origin = asm.out[line - 1][1] if 0 < line <= len(asm.out) else None
         entry = {
@@ -259,5 +259,5 @@ if __name__ == '__main__':
     sc = tempfile.mkdtemp(prefix='s4verif.', dir='/var/tmp')
     r = run_unit(unit, os.path.join(root, 'contracts', unit, 'unit.rs'), os.environ.get('S4_REPO', '/repo'), sc)
     keep = {k: v for k, v in r.items() if k not in ('cuts', 'clauses')}
-    print(json.dumps(keep, indent=1)[:20000])
+    json.dump(keep, open('/var/tmp/vr_last.json', 'w'), indent=1)
     print('generated:', r.get('generated'))
